@@ -23,7 +23,7 @@ def run(ctx):
                 elif line[:1] in "SBEG": last_case = line
         except Exception: pass
         tbl = E.parse_table(last_table.split()) if last_table else None
-        ctx.violation({"harness_rc": rc, "stderr": err[-4000:], "last_table": tbl, "last_case_line": (last_case or "")[:1000],
+        ctx.violation({"harness_rc": rc, "stderr": err[-4000:], "last_table": tbl, "last_case_line": (last_case or "").strip(), "last_table_line": (last_table or "").strip(), "mode": "san",
                        "replay_cmd": "VERIF_SEED=%d python3 bin/check.py C05 --tier %s" % (ctx.seed, ctx.tier)},
                       "sanitizer build %s (rc=%d) on the case after %s: %s" % ("hung (timeout)" if rc == 124 else "aborted: memory error / UB / assertion", rc, (last_case or "")[:120], err[-700:]))
         return
@@ -69,4 +69,37 @@ def run(ctx):
                         "MSan is not used (uninstrumented cfitsio); reads of uninitialised-but-owned padding are allowed by the property"]
 
 def replay(ctx, path):
-    print(open(path).read()[:4000]); run(ctx)
+    """Re-execute the recorded input under the sanitizer build: the lookup line first; if it succeeds, every entry
+    point at that point with the returned centres."""
+    import json, os
+    r = json.load(open(path))
+    tl = r.get("last_table_line") or r.get("table_line"); cl = r.get("last_case_line") or r.get("case_line")
+    if not tl or not cl: return run(ctx)
+    ctx.audit()
+    exe = E.build(ctx, "san")
+    table = E.parse_table(tl.split()); nd = table["ndim"]
+    w = cl.split()
+    xbits = w[1:1 + nd] if w[0] == "S" else (w[3:3 + nd] if w[0] in "VB" else (w[2 + nd:2 + 2 * nd] if w[0] in "DE" else w[2:2 + nd]))
+    cases = os.path.join(ctx.scratch, "replay.in"); impl = cases + ".impl"
+    def execute(lines):
+        with open(cases, "w") as f: f.write(tl.strip() + "\n" + "\n".join(lines) + "\n")
+        rc, out, err = ctx.run([exe, "REPLAY", cases, impl], timeout=120)
+        res = open(impl).read().split("\n") if os.path.exists(impl) else []
+        return rc, err, res
+    rc, err, res = execute(["S " + " ".join(xbits)])
+    print("replay lookup:", res[1:2], "rc", rc)
+    lines = []
+    if rc == 0 and len(res) > 1 and res[1].startswith("ok"):
+        cs = res[1].split()[1:]
+        xc = " ".join(xbits) + " " + " ".join(cs)
+        for mask in sorted(set([0, (1 << nd) - 1] + [1 << d for d in range(nd)])): lines += ["B f %d %s" % (mask, xc), "B d %d %s" % (mask, xc)]
+        for k in (1, 2, 7): lines += ["E f " + " ".join([str(k)] * nd) + " " + xc, "E d " + " ".join([str(k)] * nd) + " " + xc]
+        lines += ["G f " + xc, "G d " + xc]
+        rc, err, res = execute(lines)
+    ctx.coverage["evaluations"] = 1 + len(lines); ctx.coverage["distinct_nontrivial"] = max(2, len(lines)); ctx.coverage["rule"] = "replay of one recorded input at every entry point"
+    ctx.coverage["samples"].append({"replayed_x_bits": xbits, "lines": lines[:4]})
+    if rc != 0:
+        ctx.violation({"last_table_line": tl, "last_case_line": cl, "harness_rc": rc, "stderr": err[-3000:], "mode": "san"},
+                      "replay: sanitizer build %s (rc=%d): %s" % ("hung" if rc in (124, -14) else "aborted", rc, err[-500:]))
+    else:
+        print("replay: no memory error, assertion or hang on this input")
